@@ -73,6 +73,7 @@ pub fn check(id: &str, tier: &str, seed: u64) -> Option<i32> {
                 vec![],
             ))
         }
+        #[cfg(feature = "shim")]
         "C05" => {
             let mut g = crash_profile();
             g.max_ops = if thorough { 40 } else { 22 };
@@ -102,6 +103,7 @@ pub fn check(id: &str, tier: &str, seed: u64) -> Option<i32> {
                 vec![],
             ))
         }
+        #[cfg(feature = "shim")]
         "C16" => {
             let mut g = crash_profile();
             g.max_ops = if thorough { 25 } else { 14 };
@@ -289,10 +291,12 @@ pub fn replay(id: &str, path: &Path) -> Option<i32> {
             let case: crate::fifo::FifoCase = serde_json::from_value(v["case"].clone()).ok()?;
             Some(report(crate::fifo::run(&case)))
         }
+        #[cfg(feature = "shim")]
         "C05" => {
             let case: crate::spec::Case = serde_json::from_value(v["case"].clone()).ok()?;
             Some(report(crate::crash::run(&case, true)))
         }
+        #[cfg(feature = "shim")]
         "C16" => {
             let case: crate::spec::Case = serde_json::from_value(v["case"].clone()).ok()?;
             Some(report(crate::fault::run(&case, true)))
